@@ -23,6 +23,7 @@ fn main() {
         "C09" => hdmc::schedmc::c09::run(&args),
         "C08" => hdmc::props::iomc::run_c08(&args),
         "C18" => hdmc::props::iomc::run_c18(&args),
+        "CONC" => hdmc::poolmc::conc_cli(),
         "MIRI-NOOP" => 0,
         "MIRI-C08" => hdmc::props::iomc::run_miri_stage("C08"),
         "MIRI-C18" => hdmc::props::iomc::run_miri_stage("C18"),
